@@ -342,14 +342,8 @@ func panicMessage(out string) (msg string, hasTrace bool) {
 	return strings.TrimSpace(rest), false
 }
 
-func norm(s string) string {
-	var b strings.Builder
-	for _, c := range strings.ToLower(s) {
-		if (c >= 'a' && c <= 'z') || (c >= '0' && c <= '9') {
-			b.WriteRune(c)
-		}
-	}
-	return b.String()
+func isWordChar(c byte) bool {
+	return (c >= 'a' && c <= 'z') || (c >= '0' && c <= '9') || c == '_'
 }
 
 // participants lists, per property, the other properties of a documented
@@ -364,8 +358,7 @@ var participants = map[string][]string{
 	"https_port":      {"tls_port", "doh_path", "ports"},
 	"tls_port":        {"https_port", "ports"},
 	"quic_port":       {"ports"},
-	"filtering_group": {"filtering group"},
-	"id":              {"filtering_group", "filtering group"},
+	"id":              {"filtering_group"},
 	"ids":             {"rule_lists", "filter list id"},
 	"protocol":        {"dnscrypt", "tls", "bind_interfaces"},
 }
@@ -373,16 +366,33 @@ var participants = map[string][]string{
 // namesProperty reports whether the rejection message identifies one of the
 // mutated properties.
 func namesProperty(msg string, ms []mutation, cfg string) (how string, ok bool) {
-	nm := norm(msg)
+	lm := strings.ToLower(msg)
+	// hasWord: name appears as a whole token (also with '_' written as ' ').
+	hasWord := func(name string) bool {
+		for _, n := range []string{strings.ToLower(name), strings.ReplaceAll(strings.ToLower(name), "_", " ")} {
+			for from := 0; ; {
+				i := strings.Index(lm[from:], n)
+				if i < 0 {
+					break
+				}
+				i += from
+				j := i + len(n)
+				if (i == 0 || !isWordChar(lm[i-1])) && (j == len(lm) || !isWordChar(lm[j])) {
+					return true
+				}
+				from = i + 1
+			}
+		}
+		return false
+	}
 	for _, m := range ms {
-		k := m.Path.lastKey()
-		if strings.Contains(nm, norm(k)) {
+		if k := m.Path.lastKey(); hasWord(k) {
 			return "key:" + k, true
 		}
 	}
 	for _, m := range ms {
 		for _, p := range participants[m.Path.lastKey()] {
-			if strings.Contains(nm, norm(p)) {
+			if hasWord(p) {
 				return "participant:" + p, true
 			}
 		}
@@ -738,7 +748,11 @@ func TestCheck(t *testing.T) {
 	// The unmodified base must be accepted and pass the whole script; otherwise
 	// nothing below means anything.
 	baseObs := h.runOnce(nil, "base")
-	r.Sample(map[string]interface{}{"case": "base", "verdict": baseObs.Verdict, "start_ms": baseObs.StartMS, "groups": baseObs.Groups})
+	var baseGroups []string
+	for _, g := range baseObs.Groups {
+		baseGroups = append(baseGroups, fmt.Sprintf("%s/%s@%s %d/%d", g.Group, g.Client, g.Server, g.Answered, g.Sent))
+	}
+	r.Sample(map[string]interface{}{"case": "base", "verdict": baseObs.Verdict, "start_ms": baseObs.StartMS, "groups_answered_of_sent": baseGroups})
 	switch baseObs.Verdict {
 	case "accepted":
 		r.Bucket("base_ok", 1)
@@ -865,8 +879,8 @@ func TestCheck(t *testing.T) {
 		combos = append(combos, caseSpec{Stream: "constraint", Idx: i, Muts: ms})
 	}
 	r.Bucket("cases_constraint", int64(len(combos)))
-	gen("pair", r.N(150, 900), 2)
-	gen("triple", r.N(0, 450), 3)
+	gen("pair", r.N(150, 2400), 2)
+	gen("triple", r.N(0, 1200), 3)
 	r.Bucket("cases_combination", int64(len(combos)))
 	for _, cr := range h.runAll(combos, par) {
 		h.account(cr, singleViol)
